@@ -595,7 +595,7 @@ Proof.
   destruct (negb (start_stage_fresh (s_status st)) && negb zombie) eqn:E0; [exact I|].
   destruct (should_skip st). { expose. split; [apply legal_quiet; solve_quiet|exact I]. }
   destruct (mutex_blocked s i st). { expose. split; [apply legal_quiet; solve_quiet|exact I]. }
-  destruct (choice_claimed s i st). { expose. split; [apply legal_quiet; solve_quiet|exact I]. }
+  destruct (status_eqb (s_status st) NOT_STARTED && choice_claimed s i st). { expose. split; [apply legal_quiet; solve_quiet|exact I]. }
   set (m := match s_mutex st with Some k0 => acquire_claim s true k0 i true | None => (true, w_claims s) end).
   destruct (fst m); cbn [negb]. 2:{ expose. split; [apply legal_quiet; solve_quiet|exact I]. }
   set (c := match s_choice st with Some g => acquire_claim (with_claims (snd m) s) false g i false | None => (true, snd m) end).
